@@ -180,7 +180,10 @@ mod verif_kani {
             if deadline(&e.1) > now {
                 assert!(w < m.peers.model_len(), "[C10.udp.large.clean.keeps_unexpired] a peer whose deadline is in the future is kept");
                 let (k, v) = m.peers.model_entry(w);
-                assert!(*k == e.0 && peer_eq(v, &e.1), "[C10.udp.large.clean.keeps_unexpired] kept peers are unchanged and in order");
+                assert!(*k == e.0, "[C10.udp.large.clean.keeps_unexpired] kept peers are in order (key)");
+                assert!(v.peer_id == e.1.peer_id, "[C10.udp.large.clean.keeps_unexpired] kept peers are unchanged (peer id)");
+                assert!(v.is_seeder == e.1.is_seeder, "[C10.udp.large.clean.keeps_unexpired] kept peers are unchanged (seeder flag)");
+                assert!(deadline(v) == deadline(&e.1), "[C10.udp.large.clean.keeps_unexpired] kept peers are unchanged (deadline)");
                 if e.1.is_seeder { es += 1; }
                 w += 1;
             }
